@@ -148,8 +148,20 @@ def check(ctx, run):
     slice_eq_users = []
     if 'functions::contains_jsonb' not in f.bodies:
         run.undecided('R12.1', 'functions::contains_jsonb', 'body', 'function not found (anchor lost)')
-    walker = sorted(x for x in ctx.cg.reachable(['functions::contains_jsonb']) if x in f.bodies and x.startswith('functions::')
-                    and not x.startswith('functions::scalar_eq') and not x.startswith('functions::read_u32'))
+    # the scalar-equality helper: by name, or (renamed / moved) the function of the cone that decodes two numbers and answers a bool
+    seq_name = 'functions::scalar_eq' if 'functions::scalar_eq' in f.bodies else None
+    if seq_name is None:
+        for x in sorted(ctx.cg.reachable(['functions::contains_jsonb'])):
+            bx = f.bodies.get(x)
+            if bx is None or bx.kind == 'Promoted' or '{closure' in x:
+                continue
+            if str(bx.local_ty(0).get('s')) == 'bool' and sum(1 for _, t_ in bx.calls() if called(callee_name(t_), 'Number::decode')) >= 2:
+                seq_name = x
+                break
+    else:
+        seq_name = f.bodies['functions::scalar_eq'].path
+    walker = sorted(x for x in ctx.cg.reachable(['functions::contains_jsonb']) if x in f.bodies and (x.startswith('functions::') or x.startswith('jentry::'))
+                    and not (seq_name and x.startswith(seq_name)) and not x.endswith('::read_u32'))
     for fn in walker:
         b = f.bodies.get(fn)
         if b is None or b.kind == 'Promoted':
@@ -165,7 +177,7 @@ def check(ctx, run):
                       'unlike compare and the text path', f"{t.get('file')}:{t.get('line')}")
     else:
         run.proved('R12.1', 'functions::contains_jsonb', 'raw-compare', 'the walker compares scalar payloads only through scalar_eq')
-    b = f.bodies.get('functions::scalar_eq')
+    b = f.bodies.get(seq_name) if seq_name else None
     if b is None:
         run.undecided('R12.1', 'functions::scalar_eq', 'numbers', 'the scalar equality helper was not found under this name (renamed or moved into a method?): how the walker compares '
                       'number payloads is not decided here (a direct comparison of payload bytes in the walker is still reported by the raw-compare clause)')
@@ -189,7 +201,7 @@ def check(ctx, run):
         (run.proved if ok else run.violation)('R12.1', b.path, 'numbers', 'NUMBER_TAG payloads are decoded and compared with Number ==' if ok else
                                                'two decodable numbers are not compared as numbers in scalar_eq', f'{b.file}:{b.line}')
         import re as _re
-        users = sorted({_re.sub(r'(::\{closure#\d+\})+$', '', c) for c, tg in ctx.cg.edges.items() if 'functions::scalar_eq' in tg})
+        users = sorted({_re.sub(r'(::\{closure#\d+\})+$', '', c) for c, tg in ctx.cg.edges.items() if b.path in tg})
         need = {'functions::contains_jsonb'} | ({'functions::array_contains'} if 'functions::array_contains' in f.bodies else set())
         ok = need <= set(users)
         if not ok and 'functions::contains_jsonb' in users and 'functions::array_contains' not in f.bodies:
